@@ -3,7 +3,9 @@ CONSTANTS
   N = 3
   MaxDeliver = 3
   MaxCrash = 2
+  Readers = 0
+  ReadFill = FALSE
   Forks = FALSE
   Gaps = TRUE
-INVARIANTS InvHeadLinked InvIndex InvHeadState InvMarks InvExecuted InvWeightMonotone InvCrashHeadWeak
+INVARIANTS InvCache InvHeadLinked InvIndex InvHeadState InvMarks InvExecuted InvWeightMonotone InvCrashHeadWeak
 CHECK_DEADLOCK FALSE
